@@ -438,9 +438,98 @@ func runC09(cfg Config) {
 			monitor("a read on the mounted file did not return", caseLine, "")
 		}
 	}
+	c09SameHandle(cfg, rep, rng, monitor)
 	c09CLI(cfg, rep, rng)
 	rep.Write(cfg.Out)
 }
+
+// c09SameHandle: several read requests in flight on ONE open handle of the mounted file (what kernel read-ahead or a
+// threaded program using pread on one descriptor produces; go-fuse serves each request in its own goroutine), over a store
+// that takes some time per chunk: every read returns exactly the blob's bytes at its own offset
+func c09SameHandle(cfg Config, rep *Report, rng *rand.Rand, monitor func(what, caseLine, impl string)) {
+	for it := 0; it < cfg.N(4, 40); it++ {
+		nch := 8 + rng.Intn(12)
+		var blob []byte
+		var idx desync.Index
+		st := &slowMapStore{data: map[desync.ChunkID][]byte{}, delay: time.Duration(100+rng.Intn(300)) * time.Microsecond}
+		for k := 0; k < nch; k++ {
+			b := randBytes(rng, 300+rng.Intn(700))
+			id := desync.Digest.Sum(b)
+			idx.Chunks = append(idx.Chunks, desync.IndexChunk{ID: id, Start: uint64(len(blob)), Size: uint64(len(b))})
+			st.data[id] = b
+			blob = append(blob, b...)
+		}
+		idx.Index.ChunkSizeMax = 1024
+		node := desync.VerifNewIndexMountFile(idx, st)
+		h, ok := node.Open()
+		if !ok {
+			continue
+		}
+		workers, reads := 6, 40
+		caseLine := fmt.Sprintf("mount.same-handle it=%d chunks=%d goroutines=%d reads-each=%d store-delay=%v", it, nch, workers, reads, st.delay)
+		rep.Count(caseLine, true, "mount-same-handle")
+		type rd struct {
+			off int64
+			n   int
+		}
+		var wg sync.WaitGroup
+		bad := make(chan string, workers)
+		for w := 0; w < workers; w++ {
+			plan := make([]rd, reads)
+			for i := range plan {
+				plan[i] = rd{int64(rng.Intn(len(blob))), 1 + rng.Intn(900)}
+			}
+			wg.Add(1)
+			go func(plan []rd) {
+				defer wg.Done()
+				for _, r := range plan {
+					b, ok := h.Read(make([]byte, r.n), r.off)
+					end := r.off + int64(r.n)
+					if end > int64(len(blob)) {
+						end = int64(len(blob))
+					}
+					if !ok || !bytes.Equal(b, blob[r.off:end]) {
+						select {
+						case bad <- fmt.Sprintf("offset %d, %d bytes, ok=%v", r.off, r.n, ok):
+						default:
+						}
+						return
+					}
+				}
+			}(plan)
+		}
+		done := make(chan struct{})
+		go func() { wg.Wait(); close(done) }()
+		select {
+		case <-done:
+		case <-time.After(60 * time.Second):
+			monitor("concurrent reads on one handle of the mounted file did not return", caseLine, "")
+		}
+		select {
+		case what := <-bad:
+			monitor("with several reads in flight on one handle of the mounted file, a read returned bytes that are not the blob's at its offset (or failed): "+what, caseLine, "")
+		default:
+		}
+	}
+}
+
+// slowMapStore serves chunks from a map after a short delay
+type slowMapStore struct {
+	data  map[desync.ChunkID][]byte
+	delay time.Duration
+}
+
+func (s *slowMapStore) GetChunk(id desync.ChunkID) (*desync.Chunk, error) {
+	time.Sleep(s.delay)
+	b, ok := s.data[id]
+	if !ok {
+		return nil, desync.ChunkMissing{ID: id}
+	}
+	return desync.NewChunkWithID(id, b, false)
+}
+func (s *slowMapStore) HasChunk(id desync.ChunkID) (bool, error) { _, ok := s.data[id]; return ok, nil }
+func (s *slowMapStore) Close() error                             { return nil }
+func (s *slowMapStore) String() string                           { return "slow-map" }
 
 // gatedReadStore holds GetChunk of one chunk ID until the gate opens
 type gatedReadStore struct {
